@@ -119,7 +119,7 @@ func modelled(typ string) bool {
 	switch base {
 	case "threshold", "unanimity", "cnf", "hierarchical", "boolexpr", "msp", "kwshare", "feldmanshare",
 		"feldmanlifted", "feldmanvv", "pedersenvv", "pedersenshare", "pedersenlifted", "dkls23partialsig", "basepublic", "baseshard", "dkls23shard", "schnorrshard", "ecdsasig", "matrix", "sqmatrix", "mvmatrix",
-		"nat", "int", "natplus", "scalar", "point":
+		"nat", "int", "natplus", "uint", "scalar", "point":
 		_, _, _, ok := curveParams(typ)
 		return ok
 	}
@@ -355,6 +355,7 @@ func main() {
 	samples := buildSamples(a.Seed, a.Tier)
 	phase("buildSamples")
 	samples = append(samples, heavySamples(a.Seed, a.Tier)...)
+	samples = append(samples, numSamples(a.Seed, a.Tier)...)
 	phase("heavySamples")
 	if a.Driver == "" {
 		// no model driver given: list the samples and their implementation-side round trip
@@ -402,8 +403,10 @@ func genCases(a vh.Args, samples []Sample) []*tcase {
 	mutated := map[string]int{}
 	fixedDone := map[string]bool{}
 	maxExpensive, maxPerType, maxMaps := 1, 4, 8
+	numBoundaryBudget := 24
 	if a.Tier == "thorough" || a.Search {
 		maxExpensive, maxPerType, maxMaps = 4, 1<<30, 40
+		numBoundaryBudget = 200
 	}
 	for i := range samples {
 		s := &samples[i]
@@ -432,6 +435,7 @@ func genCases(a vh.Args, samples []Sample) []*tcase {
 		if veryExpensive(s.Type) && a.Tier != "thorough" && !a.Search {
 			// one decode costs 50-500 ms (Paillier secret keys, known-order groups): only the
 			// top-level fields null / dropped
+			cases = append(cases, numericBoundaryCases(s, tree, 6)...)
 			// (a removed component is refused before the expensive arithmetic starts, so these are cheap)
 			refs := collect(&tree)
 			cnt := 0
@@ -549,6 +553,10 @@ func genCases(a vh.Args, samples []Sample) []*tcase {
 				}
 			}
 		}
+		// numeric boundaries: every integer-like leaf against the leaves it is related to (value vs
+		// modulus, v vs n, share ID vs IDs, ...) — the bound itself copied over, bound +- 1, 0, 1 — and
+		// against the group order where the type has one; unsigned leaves against container lengths
+		cases = append(cases, numericBoundaryCases(s, tree, numBoundaryBudget)...)
 		// every field near the top in turn: absent, null (pointer fields left nil by the decoder)
 		{
 			probe := tree.clone()
@@ -972,7 +980,10 @@ func evaluate(a vh.Args, res *vh.Result, cases []*tcase) {
 					mm("corr", keyBase+"/unknown-field-accepted", "a struct carries a key that names no field ("+c.mut.Kind+" at "+c.mut.Path+"), the implementation accepts it", "C12 (iii) unknown_field_rejected", true)
 					continue
 				case "invalid":
-					if r, _ := strconv.Atoi(arg); r == 40 {
+					if r, _ := strconv.Atoi(arg); r == 41 {
+						mm("corr", keyBase+"/range-invariant-violated-after-decode", "the stream ("+c.mut.Kind+" at "+c.mut.Path+") holds a num.Uint whose value is not below its modulus, but the implementation accepts it; re-encoding "+vh.Hex(d.Re), "C12 (iii) decoding validates like construction: 0 <= value < modulus (uint_valid_spec)", true)
+						continue
+					} else if r == 40 {
 						mm("corr", keyBase+"/missing-component-accepted", "the stream ("+c.mut.Kind+" at "+c.mut.Path+") lacks a declared component (absent, null or undefined) of a type whose UnmarshalCBOR validates, but the implementation accepts it; re-encoding "+vh.Hex(d.Re), "C12 (iii) decoding validates like construction: no component missing", true)
 						continue
 					} else if r < 100 {
@@ -1001,6 +1012,9 @@ func evaluate(a vh.Args, res *vh.Result, cases []*tcase) {
 						// plain message struct with a missing component: refused by Validate in the round
 						// function, not by the decoder — checked by the protocol sweep (sweep.go)
 						res.Distribution["mut:message-missing-component-left-to-Validate"]++
+					} else if v2 == "invalid" && a2 == "41" {
+						mm("corr", keyBase+"/range-invariant-violated-after-decode", "the implementation accepted the stream ("+c.mut.Kind+" at "+c.mut.Path+") and re-encodes the value as "+vh.Hex(d.Re)+", which holds a num.Uint whose value is not below its modulus", "C12 (ii) an accepted value satisfies 0 <= value < modulus (uint_valid_spec)", true)
+						continue
 					} else if v2 != "valid" {
 						mm("corr", keyBase+"/accepted-"+v2+a2, "the implementation accepted the stream and re-encodes the value as "+vh.Hex(d.Re)+", which the model classifies as "+v2+" "+a2+" ("+ruleTextS(a2)+")", "C12 (ii) typed_decode_valid: an accepted value satisfies the constructor rules", true)
 						continue
@@ -1083,6 +1097,10 @@ func factsViolation(typ, facts, what string, mm func(kind, key, detail, what str
 	if strings.Contains(facts, "accessors=bad") {
 		bad = true
 		mm("prop", typ+"/accessors-inconsistent", what+": "+facts, "C12 (ii) an accepted value satisfies the constructor rules on its public accessors (Shareholders() = IDs of the policy body, IsQualified = the policy)", true)
+	}
+	if strings.Contains(facts, "range=bad") {
+		bad = true
+		mm("prop", typ+"/range-invariant-violated-after-decode", what+": the public accessors report "+facts, "C12 (ii) an accepted num.Uint satisfies 0 <= Big() < Modulus().Big()", true)
 	}
 	if strings.Contains(facts, "canon=norebuild") {
 		bad = true
@@ -1266,6 +1284,10 @@ func ruleText(r int) string {
 		return "Pedersen share secret and blinding lengths differ"
 	case 40, 140:
 		return "a declared component is missing, null or undefined"
+	case 41:
+		return "num.Uint value not below its modulus"
+	case 42:
+		return "num.NatPlus zero"
 	case 101:
 		return "CNF sets form an antichain"
 	case 102:
